@@ -328,6 +328,9 @@ class AS4Path(ASPath):
 
     ID = Attribute.CODE.AS4_PATH
     FLAG = Attribute.Flag.TRANSITIVE | Attribute.Flag.OPTIONAL
+    # RFC 6793 6: a malformed AS4_PATH is discarded and the UPDATE processed with AS_PATH alone
+    TREAT_AS_WITHDRAW: ClassVar[bool] = False
+    DISCARD: ClassVar[bool] = True
 
     Empty: ClassVar[AS4Path | None] = None
 
@@ -345,7 +348,10 @@ class AS4Path(ASPath):
         AS4Path always uses 4-byte ASNs.
         """
         # Validate by attempting to parse - will raise Notify on error
-        cls._unpack_segments_static(data, asn4=True)
+        segments = cls._unpack_segments_static(data, asn4=True)
+        if any(len(segment) == 0 for segment in segments):
+            # RFC 6793 6: a segment length of zero makes AS4_PATH malformed (the attribute is discarded, see DISCARD)
+            raise Notify(3, 11, 'AS4_PATH segment with no AS number')
         return cls(data)
 
     @classmethod
